@@ -883,6 +883,8 @@ func (f *frame) execConvert(in *ssa.Convert, st *State) {
 				// string(bytes): byte i of the string is element i of the slice (as it is now)
 				h := st.Heap(g.TE.CellHeap(sl.Elem()))
 				f.c.assume(st, fmt.Sprintf("(forall ((i Int)) (! (=> (and (<= 0 i) (< i (slen %s))) (= (Str_at %s i) (select %s (selem %s i)))) :pattern ((Str_at %s i))))", x.T, n, h, x.T, n))
+				// string(b) is a function of the slice and the content of the byte cells (unifies with xmlChars of the decoder model)
+				f.c.assume(st, fmt.Sprintf("(= %s (%s %s %s))", n, strOfBytesUF(g, sl.Elem()), x.T, h))
 			}
 		}
 		f.setVal(in, Val{T: n, Typ: in.Type()})
